@@ -15,6 +15,76 @@ def str_const(op):
     return None
 
 
+_PASS = ("core::clone::Clone::clone", "core::ops::try_trait::Try::branch", "core::option::Option::ok_or", "core::option::Option::ok_or_else",
+         "core::result::Result::map_err", "core::result::Result::ok", "core::option::Option::copied", "core::option::Option::cloned",
+         "core::option::Option::filter", "core::option::Option::take", "core::convert::Into::into", "core::convert::From::from")
+
+
+def parsed_only(F, rep, g, local):
+    """Sources of `local` (a ProtocolVersion or an Option/Result/ControlFlow around one) that are NOT
+    `None` or a result of ProtocolVersion parsing.  Walks every definition through copies,
+    payload projections, `?`, ok_or(_else), and_then(parser | closure returning parsed-only)."""
+    bad = set()
+    seen = set()
+
+    def walk(g, l, d):
+        if (g.path, l) in seen or d > 40:
+            return
+        seen.add((g.path, l))
+        ds = [("stmt", st["rv"]) for b_, i_, st in g.stmts() if st["k"] == "a" and st["lhs"]["l"] == l and not st["lhs"].get("p")]
+        ds += [("call", t) for b_, t in g.calls() if t["k"] == "call" and t["dest"]["l"] == l and not t["dest"].get("p")]
+        if not ds:
+            bad.add("%s (no definition: parameter or capture)" % ("_%d" % l))
+            return
+        for kind, x in ds:
+            if kind == "stmt":
+                rv = x
+                if rv["k"] in ("use", "cast") and rv["o"]["k"] in ("copy", "move"):
+                    walk(g, rv["o"]["p"]["l"], d + 1)
+                elif rv["k"] == "ref":
+                    walk(g, rv["p"]["l"], d + 1)
+                elif rv["k"] in ("use", "cast") and rv["o"]["k"] == "const":
+                    txt = str(rv["o"].get("def") or rv["o"].get("v") or "?")
+                    if "None" not in txt:
+                        bad.add("constant %s" % txt)
+                elif rv["k"] == "agg" and rv.get("variant") in ("None",):
+                    pass
+                elif rv["k"] == "agg" and rv.get("variant") in ("Some", "Ok", "Continue"):
+                    for o in rv["ops"]:
+                        if o["k"] in ("copy", "move"):
+                            walk(g, o["p"]["l"], d + 1)
+                        else:
+                            bad.add("constant %s" % (o.get("def") or o.get("v")))
+                elif rv["k"] == "agg" and rv.get("variant") in ("Err", "Break"):
+                    pass
+                elif rv["k"] == "discr":
+                    pass
+                else:
+                    bad.add("%s" % rv["k"] + (" " + str(rv.get("variant")) if rv.get("variant") else ""))
+                continue
+            t = x
+            names = callee_names(t)
+            if any(n == PV + "::match_from_str" or (n.endswith("TryFrom>::try_from") and PV in n) or n == "<%s as core::convert::TryFrom>::try_from" % PV for n in names):
+                continue
+            if any(n.endswith("FromResidual::from_residual") for n in names):
+                continue
+            if any(n in _PASS for n in names) and t["args"] and t["args"][0]["k"] in ("copy", "move"):
+                walk(g, t["args"][0]["p"]["l"], d + 1)
+                continue
+            if any(n == "core::option::Option::and_then" for n in names) and len(t["args"]) == 2:
+                fa = t["args"][1]
+                if fa["k"] == "const" and norm(fa.get("fn", "") or "") == PV + "::match_from_str":
+                    continue
+                cl = op_base(fa)
+                defs = [st for b_, i_, st in g.stmts() if cl is not None and st["k"] == "a" and st["lhs"] == {"l": cl} and st["rv"]["k"] == "agg" and st["rv"].get("ak") == "closure"]
+                if len(defs) == 1 and F.has_fn(defs[0]["rv"]["def"]):
+                    walk(rep.fn(F.fn(defs[0]["rv"]["def"])), 0, d + 1)
+                    continue
+            bad.add("result of %s" % (names[0] if names else "?"))
+    walk(g, local, 0)
+    return bad
+
+
 def check(F, rep):
     rep.clause("the derived order of ProtocolVersion (declaration order) is strictly increasing in the numeric suffix of each variant's wire name; parser and printer tables agree; ALL lists every variant")
     rep.clause("the server selects with Iterator::max over the parsed offers; the selected value is the one echoed in Sec-WebSocket-Protocol and the one handed to the connection handler; the 101 response requires a successful selection")
@@ -130,6 +200,37 @@ def check(F, rep):
                 return copy_sources(h, l, stop=stop) if l is not None else set()
             is_new = lambda o: bool(src(o)) and all(x[0] == "call" and x[1] == PV + "::match_from_str" and x[2] == ("0",) for x in src(o))
             is_old = lambda o: bool(src(o)) and all(x[0] == "place" and x[1] == slot and tuple(x[2]) == ("0",) for x in src(o))
+            is_acc = lambda o: bool(src(o)) and all(x[0] == "place" and x[1] == slot and tuple(x[2]) == () for x in src(o))
+
+            def closure_cmp(o, state):
+                """truth value, for old-vs-new ordering `state`, of a closure `|old| <cmp of old and a captured new>`"""
+                cl = op_base(o)
+                defs = [st for b_, i_, st in h.stmts() if st["k"] == "a" and st["lhs"] == {"l": cl} and st["rv"]["k"] == "agg" and st["rv"].get("ak") == "closure"]
+                if len(defs) != 1 or not F.has_fn(defs[0]["rv"]["def"]):
+                    raise Unsupported("closure operand of the accumulator test")
+                g = rep.fn(F.fn(defs[0]["rv"]["def"]))
+                new_upvars = {name for name, cop in zip(g.upvars, defs[0]["rv"]["ops"]) if is_new(cop)}
+
+                def role(x):
+                    cs = copy_sources(g, op_base(x)) if op_base(x) is not None else set()
+                    if cs and all(y[0] == "arg" and y[1] == 2 and not tuple(y[2]) for y in cs):
+                        return "old"
+                    if cs and all(y[0] == "arg" and y[1] == 1 and tuple(y[2])[-1:] and tuple(y[2])[-1] in new_upvars for y in cs):
+                        return "new"
+                    return None
+
+                def cval(a2):
+                    if a2.kind == "call" and call_matches(a2.term, r"^core::cmp::PartialOrd::(lt|le|gt|ge)$"):
+                        op = a2.name.rsplit("::", 1)[-1]
+                        rel = {"lt": ("lt",), "le": ("lt", "eq"), "gt": ("gt",), "ge": ("gt", "eq")}[op]
+                        flip = {"lt": "gt", "gt": "lt", "eq": "eq"}
+                        r0, r1 = role(a2.args[0]), role(a2.args[1])
+                        if (r0, r1) == ("new", "old"):
+                            return state in rel
+                        if (r0, r1) == ("old", "new"):
+                            return flip[state] in rel
+                    raise Unsupported("test %s in closure %s" % (a2.name, g.path))
+                return booltab.evaluate(booltab.extract(g), cval)
             # loop head: the iterator next() that dominates the parse
             heads = [b_ for b_, t_ in find_calls(h, "core::iter::traits::iterator::Iterator::next") if h.dominates(b_, mb) and b_ in h.reachable(mb)]
             tg = set()
@@ -170,6 +271,12 @@ def check(F, rep):
                                         return state in rel
                                     if is_old(a.args[0]) and is_new(a.args[1]):
                                         return state != "empty" and flip[state] in rel
+                                if a.kind == "call" and call_matches(a.term, r"^core::option::Option::(is_none_or|is_some_and)$") and is_acc(a.args[0]):
+                                    # `best.is_none_or(|best| offered > best)`: the closure compares its
+                                    # parameter (the selected version) with a captured parsed offer
+                                    if state == "empty":
+                                        return a.name.endswith("is_none_or")
+                                    return closure_cmp(a.args[1], state)
                                 raise Unsupported("test %s at bb%d" % (a.name, a.bb))
                             got = booltab.evaluate(paths, value_of)
                             if not parsed:
@@ -234,7 +341,8 @@ def check(F, rep):
         mentions = [x for x in cdu.origin_facts(v, kinds=("const",)) if norm(x[4].get("fn", "") or "") == PV + "::match_from_str"]
         direct = cdu.derives_from_call(v, PV + "::match_from_str")
         hdr = [x for x in cdu.origin_facts(v, kinds=("const",)) if (x[4].get("def") or "").endswith("SEC_WEBSOCKET_PROTOCOL")]
-        rep.ob("client", (bool(mentions) or direct) and bool(hdr), site(c, b), "the connection's version is parsed (match_from_str) from the response's Sec-WebSocket-Protocol header", skey(F, c, "client-version"))
+        bad_src = parsed_only(F, rep, c, v)
+        rep.ob("client", not bad_src and bool(hdr), site(c, b), "the connection's version can only be a value parsed (match_from_str) from the response's Sec-WebSocket-Protocol header - no default or substitute%s" % ("; other sources: %s" % sorted(bad_src)[:4] if bad_src else ""), skey(F, c, "client-version"))
         # requires success of the parse
         parse_calls = [(pb, pt) for pb, pt in cdu.origin_calls(v) if call_matches(pt, r"^core::option::Option::(ok_or_else|ok_or)$")]
         ok = False
@@ -242,4 +350,5 @@ def check(F, rep):
             ts, _ = call_result_tests(c, pb)
             if requires(c, b, ts):
                 ok = True
-        rep.ob("client", ok, site(c, b), "Conn::new requires a successfully parsed version (no default)", skey(F, c, "client-requires-version"))
+        # (a version that is only ever the payload of a parsed Some also cannot exist without a successful parse)
+        rep.ob("client", ok or not bad_src, site(c, b), "Conn::new requires a successfully parsed version (no default)", skey(F, c, "client-requires-version"))
